@@ -25,6 +25,7 @@ EXPLANATION = (
     "reads of loop variables after a possibly empty loop are listed as notes.  NOT decided: the converse (every well-formed input is accepted)."
     ' (R4, round 3) conservation verdict: exact under an is_integer() guard, tolerance <= 1e-6 otherwise, integral summands as Python ints; (R6) option dictionaries are None-safe, a declared k=None is replaced before validation, additional starts / ends of the node expansion must be nodes, data multiplying solver variables are converted.'
     ' (R4, round 4) the validators of graphutils are not memoised (a graph hashes by identity); (R1) validation sites are canonicalised with store forwarding (validating a parameter before it is stored = validating the attribute afterwards), `a and (b or c)` = nested ifs, `a and any(Q)` = loop with raise.'
+    ' (R4, hunt 4) the non-integral branch of the conservation verdict uses a tolerance scaled by math.ulp of the sums (a fixed relative tolerance accepts whole units at 3e9).'
 )
 DECIDED = ["each documented domain violation has a ValueError rejection on every completing path", "delegated checks are always invoked",
            "exception type", "wrappers forward what the sub-model must validate"]
